@@ -385,7 +385,17 @@ func formsTab(c *Ctx, d *formsDump) string {
 	return commonTab(c) + "From Avo Require Import Model.Forms.\n" + d.suffixSetsCoq()
 }
 
+type buildRec struct {
+	name string
+	opc  int
+	suff []string
+	ops  []operand.Op
+	sig  string
+}
+
 func c06(c *Ctx) {
+	var history []buildRec
+	nreplayed := 0
 	o := c.Out
 	d := dumpForms(c.Repo)
 	o.WriteFile("Tab.v", formsTab(c, d))
@@ -494,6 +504,7 @@ func c06(c *Ctx) {
 				} else if m.IsValid() && len(ci.Params) == len(ops) && !strings.HasSuffix(ci.Params[0], "...") {
 					o.Plan.GoViolations = append(o.Plan.GoViolations, GoViolation{Key: "ctor:arity:" + name, Desc: "Context method " + name + " has a different number of parameters than the x86 constructor"})
 				}
+				history = append(history, buildRec{name, opc, ci.Suffixes, ops, instrSig(obs)})
 				caseRows = append(caseRows, fmt.Sprintf("(%d, %s, %s, %s)", opc, cStrs(ci.Suffixes), cOperands(ops), cOptInstr(obs)))
 				o.AddCase(Case{Key: "ctor:" + kind + ":" + name, Desc: fmt.Sprintf("%s%v -> %s", name, opsText(ops), map[bool]string{true: "accepted", false: "rejected"}[obs != nil]), Input: map[string]any{"ctor": name, "operands": opsText(ops)}, Nontrivial: true})
 				ncases++
@@ -540,6 +551,29 @@ func c06(c *Ctx) {
 				}
 			}
 		}
+		// the same calls again, each now separated from its first occurrence by every other call of the
+		// shard: what a constructor builds depends on its arguments, not on what was built before
+		nrep := 0
+		for _, h := range history {
+			got := func() (sig string) {
+				defer func() {
+					if r := recover(); r != nil {
+						sig = fmt.Sprint("panic: ", r)
+					}
+				}()
+				i2, err2, _ := x86.VerifBuild(h.opc, h.suff, h.ops)
+				if err2 != nil {
+					i2 = nil
+				}
+				return instrSig(i2)
+			}()
+			if got != h.sig && nrep < 5 {
+				nrep++
+				o.Plan.GoViolations = append(o.Plan.GoViolations, GoViolation{Key: "ctor:history-dependent:" + h.name, Desc: fmt.Sprintf("%s%v built %s when first called, and %s when called again after %d other constructor calls", h.name, opsText(h.ops), h.sig, got, len(history)-1), Replay: map[string]any{"ctor": h.name, "operands": opsText(h.ops), "calls_between": len(history) - 1}})
+			}
+		}
+		nreplayed += len(history)
+		history = history[:0]
 		fname := fmt.Sprintf("Cases%02d.v", s)
 		var b strings.Builder
 		b.WriteString(formsHeader)
@@ -575,6 +609,7 @@ func c06(c *Ctx) {
 	o.Plan.Stats["forms_in_table"] = len(d.Forms)
 	o.Plan.Stats["documented_forms_sampled"] = nforms
 	o.Plan.Stats["mutated_tuples"] = nneg
+	o.Plan.Stats["calls_repeated_after_a_whole_shard_of_other_calls"] = nreplayed
 	o.Plan.Stats["regenerated_files_identical"] = regen
 }
 
